@@ -6,10 +6,11 @@ Mirrors, as the code is now in /repo:
   `NAMES_DICT_NON_VOID` in dict order, the `#output = ` prefix), on character lists;
 * `utils.makeRPN` at character level (nine precedence groups, right-to-left scan at depth 0,
   `strip`, outer-parenthesis stripping) and `Track.__prime` / `__double_prime`;
+* `Track.__getitem__` with a string (expression or feature name) and the default output name of `Track.operate(operator, …)`;
 * `Track.__evaluateRPN` / `Track.__applyOperation` (stack machine, `#k` temporaries, dispatch on
   `=`, literal∘literal, `@`, AF∘AF, AF∘scalar `s+`…, scalar∘AF `sr+`…) and the purge of `Track.operate`;
-* the vector functions of core/operators.py for `+ - * / ^ < >`, `I D D2 ABS SQRT`,
-  `SUM AVG MIN MAX MEDIAN MAD STD` with their NaN / edge rules as coded.
+* the vector functions of core/operators.py for `+ - * / ^ < >`, `I D D2 ABS SQRT LOG DIODE SIGN EXP COS SIN TAN`,
+  `SUM AVG VAR STD MSE RMSE MAD MIN MAX MEDIAN ARGMIN ARGMAX` with their NaN / edge rules as coded.
 
 Python `str` = `List Char`. The feature table is the insertion-ordered association list
 name ↦ column (its index-remapping representation is the subject of C01). Errors are the
@@ -192,6 +193,14 @@ class Scalar (α : Type) where
   ofDec : Nat → Nat → α
   /-- `1e300` -/
   big : α
+  /-- `math.exp` (OverflowError when the result is not representable) -/
+  exp : α → Except Err α := fun _ => .error "err:unsupported"
+  /-- `math.log` on a positive argument (`Log` tests `val > 0` itself) -/
+  log : α → Except Err α := fun _ => .error "err:unsupported"
+  /-- `math.cos`, `math.sin`, `math.tan` (ValueError on an infinite argument) -/
+  cos : α → Except Err α := fun _ => .error "err:unsupported"
+  sin : α → Except Err α := fun _ => .error "err:unsupported"
+  tan : α → Except Err α := fun _ => .error "err:unsupported"
 
 namespace Scalar
 variable {α : Type} [Scalar α]
@@ -202,13 +211,24 @@ def half : α := ofDec 5 1
 def ofNat (n : Nat) : α := ofDec n 0
 /-- Python `0.0 + (bool)` / `float(bool)` -/
 def ofBool (b : Bool) : α := if b then one else zero
+/-- `a <= b` (false as soon as one side is NaN) -/
+def le (a b : α) : Bool := !(lt b a) && !(isNaN a) && !(isNaN b)
 end Scalar
+
+/-- `math.exp`: `OverflowError` ("math range error") when a finite argument gives an infinite result -/
+def floatExp (x : Float) : Except Err Float :=
+  let r := x.exp
+  if r.isInf && x.isFinite then .error "err:OverflowError" else .ok r
+
+/-- `math.cos` / `math.sin` / `math.tan`: `ValueError` ("math domain error") on ±inf, NaN passes through -/
+def floatTrig (f : Float → Float) (x : Float) : Except Err Float :=
+  if x.isInf then .error "err:value" else .ok (f x)
 
 def floatPow (x y : Float) : Except Err Float :=
   if y == 0.0 then .ok 1.0
   else if x.isNaN then .ok x
   else if y.isNaN then .ok (if x == 1.0 then 1.0 else y)
-  else if x == 0.0 && y < 0.0 then .error "err:zerodiv"
+  else if x == 0.0 && y < 0.0 && y.isFinite then .error "err:zerodiv"   -- `0.0 ** -inf` is `inf` (the infinite exponent is tested first)
   else if x < 0.0 && x.isFinite && y.isFinite && y.floor != y then .error "err:complex"
   else
     let r := x.pow y
@@ -229,6 +249,11 @@ instance : Scalar Float where
   nan := 0.0 / 0.0
   ofDec := fun m k => Float.ofScientific m true k
   big := Float.ofScientific 1 false 300
+  exp := floatExp
+  log := fun x => .ok x.log
+  cos := floatTrig Float.cos
+  sin := floatTrig Float.sin
+  tan := floatTrig Float.tan
 
 open Scalar
 
@@ -249,19 +274,63 @@ def underscoresOK (s : Str) : Bool :=
 
 def dropUnderscores (s : Str) : Str := s.filter (fun c => c != '_')
 
-/-- decimal literals `12`, `12.`, `12.5`, `.5`, `1_000.2_5` → (mantissa, number of decimals).
-    (Python's `float()` also accepts exponents, `inf`, `nan`, signs: outside the grammar.) -/
-def parseLit (s : Str) : Option (Nat × Nat) :=
+/-- decimal part `12`, `12.`, `12.5`, `.5`, `1_000.2_5` → (mantissa, number of decimals) -/
+def parseDec (s : Str) : Option (Nat × Nat) :=
+  match splitOn s ['.'] with
+  | [a] => if a.isEmpty || !underscoresOK a then none else (digitsVal (dropUnderscores a) 0).map (fun m => (m, 0))
+  | [a, b] =>
+    if (a.isEmpty && b.isEmpty) || !underscoresOK a || !underscoresOK b then none
+    else (digitsVal (dropUnderscores a ++ dropUnderscores b) 0).map (fun m => (m, (dropUnderscores b).length))
+  | _ => none
+
+/-- what `float(token)` reads: `m · 10^(e-k)`, an infinity or NaN -/
+inductive Lit where
+  | fin (m k e : Nat)
+  | inf
+  | nan
+
+/-- the part before the first `e` / `E` and, when there is one, the part after it -/
+def splitExp : Str → Str × Option Str
+  | [] => ([], none)
+  | c :: cs =>
+    if c == 'e' || c == 'E' then ([], some cs)
+    else let r := splitExp cs; (c :: r.1, r.2)
+
+/-- `inf`, `infinity`, `nan` in any case -/
+def wordLit (s : Str) : Option Lit :=
+  let l := s.map Char.toLower
+  if l = ['i', 'n', 'f'] || l = ['i', 'n', 'f', 'i', 'n', 'i', 't', 'y'] then some .inf
+  else if l = ['n', 'a', 'n'] then some .nan else none
+
+/-- the tokens Python's `float()` accepts (`isfloat`), signs and surrounding blanks apart — a token never contains
+    `+` or `-`, which are operators —: decimal literals `12`, `12.`, `12.5`, `.5`, with single underscores between
+    digits (`1_000.2_5`), an optional exponent `e`/`E` followed by digits (`1e5`, `2.5E3`, `1_0e1_0`; `1e-5` is not
+    a token), and the words `inf`, `infinity`, `nan` in any case. (Non-ASCII digits, which `float()` also reads, are
+    outside the model.) -/
+def parseLit (s : Str) : Option Lit :=
   match s with
   | [] => none
   | c :: _ =>
-    if !(c.isDigit || c == '.') then none
-    else match splitOn s ['.'] with
-    | [a] => if a.isEmpty || !underscoresOK a then none else (digitsVal (dropUnderscores a) 0).map (fun m => (m, 0))
-    | [a, b] =>
-      if (a.isEmpty && b.isEmpty) || !underscoresOK a || !underscoresOK b then none
-      else (digitsVal (dropUnderscores a ++ dropUnderscores b) 0).map (fun m => (m, (dropUnderscores b).length))
-    | _ => none
+    if c.isDigit || c == '.' then
+      match splitExp s with
+      | (mant, none) => (parseDec mant).map (fun p => .fin p.1 p.2 0)
+      | (mant, some ex) =>
+        if ex.isEmpty || !underscoresOK ex then none
+        else match parseDec mant, digitsVal (dropUnderscores ex) 0 with
+          | some p, some e => some (.fin p.1 p.2 e)
+          | _, _ => none
+    else wordLit s
+
+/-- the value of a literal: `m · 10^(e-k)` read exactly (`ofDec` is `float("…")` on a decimal string), beyond
+    every double when the exponent is out of range -/
+def litVal {α : Type} [Scalar α] : Lit → α
+  | .fin m k e =>
+    if e ≤ k then ofDec m (k - e)
+    else if m = 0 then ofDec 0 0
+    else if e - k > 400 then div one zero
+    else ofDec (m * 10 ^ (e - k)) 0
+  | .inf => div one zero
+  | .nan => nan
 
 /-! ## The track: coordinates, timestamps (as epoch seconds) and the feature table -/
 
@@ -399,13 +468,28 @@ def diff2 (n : Nat) (c : List α) : List α :=
 /-- Rectifier: `-x * (x < 0) + x * (x > 0)` -/
 def rect (x : α) : α := add (mul (neg x) (ofBool (lt x zero))) (mul x (ofBool (lt zero x)))
 
-def isVoidFn (f : Str) : Bool := f = ['I'] || f = ['D'] || f = ['D', '2'] || f = ['A', 'B', 'S'] || f = ['S', 'Q', 'R', 'T']
+def logName : Str := ['L', 'O', 'G']
+def isVoidFn (f : Str) : Bool :=
+  f = ['I'] || f = ['D'] || f = ['D', '2'] || f = ['A', 'B', 'S'] || f = ['S', 'Q', 'R', 'T']
+    || f = logName || f = ['D', 'I', 'O', 'D', 'E'] || f = ['S', 'I', 'G', 'N'] || f = ['E', 'X', 'P']
+    || f = ['C', 'O', 'S'] || f = ['S', 'I', 'N'] || f = ['T', 'A', 'N']
 /-- does the function read its input column on a track of `n` observations? (reads are per observation) -/
 def voidReads (f : Str) (n : Nat) : Bool :=
   if f = ['I'] || f = ['D'] then decide (2 ≤ n) else if f = ['D', '2'] then decide (3 ≤ n) else decide (1 ≤ n)
+/-- Log: `math.log(val) if val > 0 else 0` -/
+def logAt (x : α) : Except Err α := if lt zero x then log x else .ok zero
+/-- Diode: `x * (x > 0)` -/
+def diode (x : α) : α := mul x (ofBool (lt zero x))
+/-- Sign: `1 * (x >= 0) - 1 * (x < 0)` -/
+def sign (x : α) : α := sub (ofBool (le zero x)) (ofBool (lt x zero))
 def voidFn (f : Str) (n : Nat) (c : List α) : Except Err (List α) :=
   if f = ['I'] then .ok (integ c) else if f = ['D'] then .ok (diff c) else if f = ['D', '2'] then .ok (diff2 n c)
   else if f = ['A', 'B', 'S'] then .ok (c.map rect) else if f = ['S', 'Q', 'R', 'T'] then mapM' sqrt c
+  else if f = logName then mapM' logAt c
+  else if f = ['D', 'I', 'O', 'D', 'E'] then .ok (c.map diode) else if f = ['S', 'I', 'G', 'N'] then .ok (c.map sign)
+  else if f = ['E', 'X', 'P'] then mapM' exp c
+  else if f = ['C', 'O', 'S'] then mapM' cos c else if f = ['S', 'I', 'N'] then mapM' sin c
+  else if f = ['T', 'A', 'N'] then mapM' tan c
   else .error "err:unsupported"
 
 def skipNaN (c : List α) : List α := c.filter (fun v => !isNaN v)
@@ -416,6 +500,12 @@ def avgL (c : List α) : Except Err α :=
   if v.isEmpty then .error "err:zerodiv" else .ok (div (v.foldl add zero) (ofNat v.length))
 def minL (c : List α) : α := c.foldl (fun m v => if lt v m then v else m) big
 def maxL (c : List α) : α := c.foldl (fun m v => if lt m v then v else m) (neg big)
+/-- the loops of Argmin / Argmax: `if val < minimum: minimum = val; idmin = i` from `minimum = 1e300`, `idmin = 0` -/
+def argLoop (better : α → α → Bool) : List α → Nat → α → Nat → Nat
+  | [], _, _, best => best
+  | v :: vs, i, cur, best => if better v cur then argLoop better vs (i + 1) v i else argLoop better vs (i + 1) cur best
+def argminL (c : List α) : α := ofNat (argLoop (fun v m => lt v m) c 0 big 0)
+def argmaxL (c : List α) : α := ofNat (argLoop (fun v m => lt m v) c 0 (neg big) 0)
 /-- order of `np.argsort`: NaN last -/
 def leNaNLast (a b : α) : Bool := if isNaN b then true else if isNaN a then false else !(lt b a)
 def sortL (c : List α) : List α := c.mergeSort leNaNLast
@@ -427,21 +517,37 @@ def middle (c : List α) : Except Err α :=
   else if N % 2 = 0 then .ok (mul half (add (s.getD (N / 2 - 1) nan) (s.getD (N / 2) nan)))
   else .ok (s.getD (N / 2) nan)
 def madL (c : List α) : Except Err α := middle ((skipNaN c).map abs)
-/-- Variance / StdDev -/
-def stdL (c : List α) : Except Err α := do
+/-- Variance: `mean = AVERAGER`, then `var += (x - mean) ** 2` over the non-NaN values, `var / count` -/
+def varL (c : List α) : Except Err α := do
   let m ← avgL c
   let v := skipNaN c
   let sq ← mapM' (fun x => pow (sub x m) two) v
-  sqrt (div (sq.foldl add zero) (ofNat v.length))
+  pure (div (sq.foldl add zero) (ofNat v.length))
+/-- StdDev: `math.sqrt(VARIANCE)` -/
+def stdL (c : List α) : Except Err α := do
+  let v ← varL c
+  sqrt v
+/-- Mse: `mse += x ** 2` over the non-NaN values, `mse / count` (0/0 on integers raises) -/
+def mseL (c : List α) : Except Err α := do
+  let v := skipNaN c
+  let sq ← mapM' (fun x => pow x two) v
+  if v.isEmpty then .error "err:zerodiv" else pure (div (sq.foldl add zero) (ofNat v.length))
+/-- Rmse: `math.sqrt(MSE)` -/
+def rmseL (c : List α) : Except Err α := do
+  let m ← mseL c
+  sqrt m
 
 def isAggFn (f : Str) : Bool :=
   f = ['S', 'U', 'M'] || f = ['A', 'V', 'G'] || f = ['M', 'I', 'N'] || f = ['M', 'A', 'X'] || f = ['M', 'E', 'D', 'I', 'A', 'N']
-    || f = ['M', 'A', 'D'] || f = ['S', 'T', 'D']
+    || f = ['M', 'A', 'D'] || f = ['S', 'T', 'D'] || f = ['V', 'A', 'R'] || f = ['M', 'S', 'E'] || f = ['R', 'M', 'S', 'E']
+    || f = ['A', 'R', 'G', 'M', 'I', 'N'] || f = ['A', 'R', 'G', 'M', 'A', 'X']
 def aggFn (f : Str) (c : List α) : Except Err α :=
   if f = ['S', 'U', 'M'] then .ok (sumL c) else if f = ['A', 'V', 'G'] then avgL c
   else if f = ['M', 'I', 'N'] then .ok (minL c) else if f = ['M', 'A', 'X'] then .ok (maxL c)
   else if f = ['M', 'E', 'D', 'I', 'A', 'N'] then middle c else if f = ['M', 'A', 'D'] then madL c
-  else if f = ['S', 'T', 'D'] then stdL c
+  else if f = ['S', 'T', 'D'] then stdL c else if f = ['V', 'A', 'R'] then varL c
+  else if f = ['M', 'S', 'E'] then mseL c else if f = ['R', 'M', 'S', 'E'] then rmseL c
+  else if f = ['A', 'R', 'G', 'M', 'I', 'N'] then .ok (argminL c) else if f = ['A', 'R', 'G', 'M', 'A', 'X'] then .ok (argmaxL c)
   else .error "err:unsupported"
 
 /-! ## Operator objects through `Track.operate(operator, …)` -/
@@ -481,8 +587,23 @@ def voidInput (t : Tr α) (f inp : Str) : Except Err (List α) :=
 def voidCompute (f inp : Str) (t : Tr α) : Except Err (List α) := do
   let a ← voidInput t f inp
   voidFn f t.n a
+/-- `Log.execute`: the values are computed first and then stored with `track[af_output] = temp`
+    (`updateAnalyticalFeature` when the name is known — a coordinate name then raises KeyError —, else
+    `createAnalyticalFeature` with the list); the method returns nothing -/
+def opLog (tr : Tr α) (inp out : Str) : Res α (List α) :=
+  match voidCompute logName inp tr with
+  | .error e => (.error e, tr)
+  | .ok temp =>
+    if hasAF tr out then
+      match updateAF tr out temp with
+      | .error e => (.error e, tr)
+      | .ok tr1 => (.ok temp, tr1)
+    else
+      match createAF tr out temp with
+      | .error e => (.error e, tr)
+      | .ok tr1 => (.ok temp, tr1)
 def opVoidFn (tr : Tr α) (f : Str) (inp out : Str) : Res α (List α) :=
-  runVoid tr out (voidCompute f inp)
+  if f = logName then opLog tr inp out else runVoid tr out (voidCompute f inp)
 def opAgg (tr : Tr α) (f : Str) (inp : Str) : Except Err α := do
   let a ← getAF tr inp
   aggFn f a
@@ -495,7 +616,7 @@ inductive Item (α : Type) where
   | num (v : α)
   | unit
 
-def litOf (s : Str) : Option α := (parseLit s).map (fun p => ofDec p.1 p.2)
+def litOf (s : Str) : Option α := (parseLit s).map litVal
 
 /-- `isfloat(op)` together with `float(op)`; `float(None)` is a TypeError, which `isfloat` does not catch -/
 def isFloat : Item α → Except Err (Option α)
@@ -735,6 +856,78 @@ def evaluate (tr : Tr α) (expr : Str) : Res α (Option (List α)) :=
 def operate (tr : Tr α) (expr : Str) : Res α (Option (List α)) :=
   let r := evaluate tr expr
   (r.1, purge r.2)
+
+/-! ## externals: `Track.operate(expression, {'name': value, …})` -/
+
+def lookupExt (s : Str) : List (Str × α) → Option α
+  | [] => none
+  | (k, v) :: rest => if k = s then some v else lookupExt s rest
+
+/-- `__evaluateRPN(expression, external)`: a token that is a key of the dictionary `external` (the operator tokens
+    excepted: they are tested first) is replaced by its value — a number — before it is pushed -/
+def evalRPNx (ext : List (Str × α)) (tr : Tr α) : List Str → List (Item α) → Nat → Res α (List (Item α))
+  | [], st, _ => (.ok st, tr)
+  | e :: es, st, k =>
+    match isOperatorTok e with
+    | some o =>
+      match st with
+      | op2 :: op1 :: st' =>
+        match applyOperation tr op1 op2 o k with
+        | (.ok r, tr1) => evalRPNx ext tr1 es (r :: st') (k + 1)
+        | (.error err, tr1) => (.error err, tr1)
+      | _ => (.error "err:index", tr)
+    | none =>
+      match lookupExt e ext with
+      | some v => evalRPNx ext tr es (.num v :: st) k
+      | none => evalRPNx ext tr es (.tok e :: st) k
+
+/-- `evalTokens` with externals -/
+def evalTokensX (ext : List (Str × α)) (tr : Tr α) (rpn : List Str) (void : Bool) : Res α (Option (List α)) :=
+  match evalRPNx ext tr rpn [] 0 with
+  | (.error e, tr1) => (.error e, tr1)
+  | (.ok _, tr1) =>
+    if void then (.ok none, tr1)
+    else
+      match getAF tr1 outputName with
+      | .error e => (.error e, tr1)
+      | .ok c =>
+        match removeAF tr1 outputName with
+        | .error e => (.error e, tr1)
+        | .ok tr2 => (.ok (some c), tr2)
+
+def evaluateRewrittenX (ext : List (Str × α)) (tr : Tr α) (s : Str) (void : Bool) : Res α (Option (List α)) :=
+  match makeRPN s with
+  | .error e => (.error e, tr)
+  | .ok rpn0 =>
+    match doublePrime rpn0 with
+    | .error e => (.error e, tr)
+    | .ok rpn => evalTokensX ext tr rpn void
+
+def evaluateX (ext : List (Str × α)) (tr : Tr α) (expr : Str) : Res α (Option (List α)) :=
+  match preprocess expr with
+  | .error e => (.error e, tr)
+  | .ok (s, void) => evaluateRewrittenX ext tr s void
+
+/-- `Track.operate(expression, external)`: as `operate`, the stack machine reading the externals -/
+def operateX (ext : List (Str × α)) (tr : Tr α) (expr : Str) : Res α (Option (List α)) :=
+  let r := evaluateX ext tr expr
+  (r.1, purge r.2)
+
+/-- the characters `Track.__getitem__` looks for to decide that a string is an expression (braces are not among them) -/
+def exprChars : List Char := ['+', '-', '/', '*', '^', '>', '<', '(', ')', '=', '\'']
+
+/-- `Track.__getitem__(n)` with a string: `n.strip()`, then `operate(n)` when `n` contains one of `exprChars`,
+    else `getAnalyticalFeature(n)` -/
+def getitemStr (tr : Tr α) (n : Str) : Res α (Option (List α)) :=
+  let n := strip n
+  if n.any (fun c => exprChars.contains c) then operate tr n
+  else match getAF tr n with
+    | .ok c => (.ok (some c), tr)
+    | .error e => (.error e, tr)
+
+/-- `Track.operate(operator, arg1, …, out)`: "when output AF name is not provided, it is automatically set as the
+    first AF input" (`if arg3 == None: arg3 = arg1`) -/
+def defaultOut (out : Option Str) (in1 : Str) : Str := out.getD in1
 
 /-! ## Specification side: expression trees -/
 
